@@ -730,6 +730,12 @@ fn fuzz_stage(p: &PropDef, seed: u64, secs: u64, known: &KnownFindings) -> FuzzS
             ])
             .env("VCHECK_FUZZ_PROP", p.id)
             .env("VERIF_ROOT", &root)
+            // libFuzzer's fork mode keeps its job files in the temporary directory: keep them out of /tmp
+            .env("TMPDIR", {
+                let t = dir.join("tmp");
+                let _ = std::fs::create_dir_all(&t);
+                t
+            })
             .current_dir(&dir)
             .stdin(Stdio::null())
             .stdout(Stdio::null())
